@@ -107,6 +107,20 @@ func extractFacts(root string) *Facts {
 				}
 			}
 		}
+		if pk == "codec" {
+			for _, af := range files {
+				for _, d := range af.Decls {
+					if fd, ok := d.(*ast.FuncDecl); ok && fd.Body != nil && fd.Recv != nil {
+						codecMethods[fd.Name.Name] = fd
+					}
+					if gd, ok := d.(*ast.GenDecl); ok && gd.Tok == token.TYPE {
+						for _, sp := range gd.Specs {
+							codecTypeSpecs[sp.(*ast.TypeSpec).Name.Name] = sp.(*ast.TypeSpec)
+						}
+					}
+				}
+			}
+		}
 		for _, af := range files {
 			for _, d := range af.Decls {
 				fd, ok := d.(*ast.FuncDecl)
@@ -539,52 +553,6 @@ func lockProgram(fd *ast.FuncDecl) []string {
 	}
 	walk(fd.Body, false)
 	return prog
-}
-
-// lockStmts: the body of a registry function as a structured statement list (the `Stmt` language of
-// lean/FinProto/LockProg.lean). The type-assertion wrapper of Registry is flattened; an unrecognised statement is "opaque".
-func lockStmts(fd *ast.FuncDecl) []string {
-	stmts := fd.Body.List
-	// Registry: `if cs, ok := service.(interface{ Algorithm() string }); ok { BODY }; return false`
-	if len(stmts) == 2 {
-		if is, ok := stmts[0].(*ast.IfStmt); ok && is.Init != nil && strings.Contains(src2(is.Init), "service.(interface{ Algorithm() string })") &&
-			src2(is.Cond) == "ok" && is.Else == nil && src2(stmts[1]) == "return false" {
-			stmts = is.Body.List
-		}
-	}
-	var out []string
-	for _, s := range stmts {
-		t := src2(s)
-		switch {
-		case strings.HasSuffix(t, ".mu.Lock()") && !strings.HasPrefix(t, "defer"):
-			out = append(out, "lock")
-		case strings.HasSuffix(t, ".mu.RLock()") && !strings.HasPrefix(t, "defer"):
-			out = append(out, "rlock")
-		case strings.HasPrefix(t, "defer ") && strings.HasSuffix(t, ".mu.Unlock()"):
-			out = append(out, "deferUnlock")
-		case strings.HasPrefix(t, "defer ") && strings.HasSuffix(t, ".mu.RUnlock()"):
-			out = append(out, "deferRUnlock")
-		case strings.HasPrefix(t, "if _, exists := ") && strings.Contains(t, ".cache[") && strings.HasSuffix(t, "; exists { return false }"):
-			out = append(out, "ifExistsRetFalse")
-		case strings.HasPrefix(t, "if service, exists := ") && strings.Contains(t, ".cache[") && strings.HasSuffix(t, "; exists { return service, exists }"):
-			out = append(out, "ifExistsRetLoaded")
-		case strings.Contains(t, ".cache[") && strings.HasSuffix(t, "] = service"):
-			out = append(out, "store")
-		case strings.HasPrefix(t, "delete(") && strings.Contains(t, ".cache, "):
-			out = append(out, "delete")
-		case strings.HasSuffix(t, ".cache = make(map[string]any)"):
-			out = append(out, "replace")
-		case t == "return true":
-			out = append(out, "retTrue")
-		case t == "return false":
-			out = append(out, "retFalse")
-		case t == "return nil, false":
-			out = append(out, "retNone")
-		default:
-			out = append(out, "opaque")
-		}
-	}
-	return out
 }
 
 // memProgram: the memory-relevant instructions of a reader body in source order (the `Instr` language of
